@@ -55,14 +55,24 @@ def gen_loss_case(r, loss, floaty):
     if loss in ("epshinge", "sqepshinge"): par = dy(r, 0, 2, 2)
     if loss == "huber": par = dy(r, 1, 3, 1)
     if loss == "zeroone": par = dy(r, -1, 1, 1)
-    big = floaty and loss == "crossentropy" and r.chance(1, 5)     # exercise the value*label < -200 shortcut and large margins
+    big = floaty and loss == "crossentropy" and r.chance(1, 3)     # exercise the value*label < -200 shortcut and large margins
     rng = (1000 if r.chance(1, 2) else 400) if big else 4           # beyond +-709.78 exp() overflows
     if loss in CLASS:
         classes = 2 if m == 1 else m
         labels = " ".join(str(r.below(classes)) for _ in range(n))
     else:
         labels = " ".join(dy(r, -rng, rng, 3) for _ in range(n * m))
-    preds = " ".join(dy(r, -rng, rng, 3) for _ in range(n * m))
+    if big and n >= 2 and r.chance(1, 2):
+        # rows of very different magnitude inside ONE batch (one row near +-1000, another near 0): anything
+        # computed once per batch instead of once per row (log-sum-exp shift, normaliser) shows here
+        rows = []
+        for i in range(n):
+            scale = r.choice([1, 4, 400, 1000])
+            shift = r.choice([0, 0, -1000, 1000, 700, -700]) if scale <= 4 else 0
+            rows.append(" ".join(dy(r, shift - scale, shift + scale, 3) for _ in range(m)))
+        preds = " ".join(rows)
+    else:
+        preds = " ".join(dy(r, -rng, rng, 3) for _ in range(n * m))
     return f"{kind} {loss} | {par} | {n} {m} | {labels} | {preds}"
 
 
